@@ -741,6 +741,15 @@ func (h *c08hist) genOp() (ref.Instr, bool) {
 		}
 		return ref.Instr{Op: "unsqueeze", In: []int{x}, Dim: 0}, true
 	case 6:
+		if r.Intn(3) == 0 { // Patch: x completely overwritten by a same-shape tensor (nil or explicit full index)
+			var idx []ref.Range
+			if r.Intn(2) == 0 {
+				for _, d := range v.Shape {
+					idx = append(idx, ref.Range{From: 0, To: d})
+				}
+			}
+			return ref.Instr{Op: "patch", In: []int{x, same()}, Index: idx}, true
+		}
 		if rank >= 1 && len(v.Data) <= 12 {
 			return ref.Instr{Op: "concat", In: []int{x, same()}, Dim: r.Intn(rank)}, true
 		}
